@@ -63,6 +63,24 @@ TABLE = {
  "C18": [("Proofs/StructBound", n) for n in ["pop_bound_sound", "pop_bound_bounded", "core_bounded_crun", "view_bounded_state_after", "sma_pop", "cyber_pop"]] +
         [("Proofs/StructSched", n) for n in ["sched_pop_bound", "sched_pop_bounded"]],
 }
+EXTRA13 = {
+ "C14": [("Proofs/FAccBComb", n) for n in ["add_f64_correctly_rounded", "sub_f64_correctly_rounded", "mul_f64_correctly_rounded", "div_f64_correctly_rounded",
+                                           "add_f64_run", "sub_f64_run", "mul_f64_run", "div_f64_run", "binop_last_none", "gte_f64_exact", "lte_f64_exact",
+                                           "echo_f64_exact", "constant_f64_exact"]],
+ "C16": [("Proofs/FAccBRoc", n) for n in ["roc_f64_accuracy", "roc_state_exact", "roc_f64_readiness", "roc_f64_hold_agrees", "roc_f64_hold_spec", "roc_f64_finite", "roc_f64_accuracy_regime"]] +
+        [("Proofs/FAccBDd", n) for n in ["drawdown_f64_accuracy", "drawdown_state_exact", "drawdown_f64_total"]] +
+        [("Proofs/FAccBCog", n) for n in ["cog_f64_accuracy_pos", "cog_f64_accuracy_pos_n", "cog_f64_readiness", "cog_f64_accuracy_mixed_refuted"]] +
+        [("Proofs/FAccBCti", n) for n in ["cti_f64_accuracy_refuted", "cti_f64_accuracy_refuted4"]] +
+        [("Proofs/WdriftVar", n) for n in ["welford_var_drift", "welford_std_drift", "vst_drift", "vsct_drift"]] +
+        [("Proofs/WdriftVarB64", n) for n in ["welford_var_drift_b64", "welford_std_drift_b64", "vst_drift_b64", "vsct_drift_b64"]] +
+        [("Proofs/WdriftSharp", n) for n in ["down_instance_ok", "welford_m2_residue_persists"]],
+ "C02": [("Proofs/FAccBRoc", n) for n in ["roc_f64_accuracy", "roc_f64_hold_agrees"]] + [("Proofs/WdriftVarB64", n) for n in ["vst_drift_b64", "vsct_drift_b64", "welford_std_drift_b64"]] +
+        [("Proofs/WdriftSharp", "welford_m2_residue_persists")],
+ "C13": [("Proofs/FAccBDd", n) for n in ["drawdown_f64_accuracy", "drawdown_f64_total"]],
+ "C06": [("Proofs/FAccBCog", n) for n in ["cog_f64_accuracy_pos", "cog_f64_accuracy_mixed_refuted"]] + [("Proofs/FAccBCti", "cti_f64_accuracy_refuted")],
+ "C07": [("Proofs/FAccBDd", "drawdown_f64_accuracy")],
+ "C08": [("Proofs/FAccBRoc", "roc_f64_finite"), ("Proofs/FAccBDd", "drawdown_f64_total"), ("Proofs/FAccBCog", "cog_f64_readiness")],
+}
 EXTRA12 = {
  "C13": [("Proofs/WdriftP", n) for n in ["wr_s_drift", "wr_var_drift"]] + [("Proofs/WdriftB64", n) for n in ["wr_s_drift_b64", "wr_var_drift_b64"]],
  "C16": [("Proofs/WdriftP", n) for n in ["welford_mean_drift", "welford_m2_drift", "wr_s_drift", "wr_var_drift"]] +
@@ -182,7 +200,7 @@ def header_of(path, name):
     return " ".join(m.group(1).split())
 
 def _merge_extra():
-    for ex in (EXTRA2, EXTRA3, EXTRA4, EXTRA5, EXTRA6, EXTRA7, EXTRA8, EXTRA9, EXTRA10, EXTRA11, EXTRA12):
+    for ex in (EXTRA2, EXTRA3, EXTRA4, EXTRA5, EXTRA6, EXTRA7, EXTRA8, EXTRA9, EXTRA10, EXTRA11, EXTRA12, EXTRA13):
         for k, v in ex.items():
             EXTRA[k] = EXTRA.get(k, []) + v
 
